@@ -130,6 +130,7 @@ package section
 
 //@ func Split(fset, filename, content) (prog, err)
 //@   requires fset != nil
+//@   ensures-assumed err == nil ==> forall k int {prog[k]} :: 0 <= k && k < len(prog) ==> prog[k] != nil && (forall l int {prog[k].Meta[l]} :: 0 <= l && l < len(prog[k].Meta) ==> prog[k].Meta[l] != nil) && (forall l int {prog[k].Patch[l]} :: 0 <= l && l < len(prog[k].Patch) ==> prog[k].Patch[l] != nil) && (forall l int, m int {prog[k].Patch[l], prog[k].Patch[m]} :: 0 <= l && l < m && m < len(prog[k].Patch) ==> prog[k].Patch[l] != prog[k].Patch[m])
 //@   assigns nothing
 
 // The scratch buffer of a section and, per line, where it starts in the buffer and where it came from.
